@@ -803,7 +803,8 @@ package nitro
 //@ pure glNode(w *Writer, k int) *skiplist.Node = cast(*skiplist.Node, w.gl[k])
 //@ pure wfGC(w *Writer) bool = w.gln >= 0 && (w.gln == 0 <==> w.gctail == nil) && (w.gln == 0 <==> w.gchead == nil) &&
 //@     (w.gln > 0 ==> w.gchead == w.gl[0] && w.gctail == w.gl[w.gln - 1] && w.gctail.Link == nil) &&
-//@     (forall k int {w.gl[k]} :: 0 <= k && k < w.gln ==> w.gl[k] != nil && cast(*Item, glNode(w, k).itm).deadSn == w.currSn && cast(*Item, glNode(w, k).itm).bornSn < w.currSn && (k + 1 < w.gln ==> glNode(w, k).Link == w.gl[k + 1])) &&
+//@     (forall k int {w.gl[k]} :: 0 <= k && k < w.gln ==> w.gl[k] != nil && cast(*Item, glNode(w, k).itm).deadSn == w.currSn && cast(*Item, glNode(w, k).itm).bornSn < w.currSn) &&
+//@     (forall k, l int {w.gl[k], w.gl[l]} :: 0 <= k && l == k + 1 && l < w.gln ==> glNode(w, k).Link == w.gl[l]) &&
 //@     (forall k, l int {w.gl[k], w.gl[l]} :: 0 <= k && k < l && l < w.gln ==> w.gl[k] != w.gl[l])
 //@ pure wfWriter3(w *Writer) bool = wfWriter2(w) && wfGC(w)
 //@ pure memberAt(w *Writer, x ref, i int) bool = 0 <= i && i < w.store.n && w.store.phys[i] == x
@@ -861,3 +862,74 @@ package nitro
 //@ inline
 //@ func (*Writer).Delete
 //@ inline
+
+// ---------------------------------------------------------------------------
+// NewSnapshot: merges the writers' count deltas into the global counter, stitches the writers' garbage lists
+// (in writer-list order) into the snapshot's list, and opens the next epoch.
+// Ghost: wl/wn is the writer list as a sequence; woff[k] is the offset of writer k's garbage in the stitched
+// list, wcs[k] the global counter after merging writers 0..k-1.
+// ---------------------------------------------------------------------------
+//@ ghost field Nitro.wl [int]ref
+//@ ghost field Nitro.wn int
+//@ ghost field Nitro.wi int
+//@ ghost field Nitro.ngl [int]ref
+//@ ghost field Nitro.ngn int
+//@ ghost field Nitro.woff [int]int
+//@ ghost field Nitro.wcs [int]int
+//@ ghost field Snapshot.sgl [int]ref
+//@ ghost field Snapshot.sgn int
+//@ pure wrAt(m *Nitro, k int) *Writer = cast(*Writer, m.wl[k])
+//@ pure wfWriters(m *Nitro) bool = m.wn >= 0 && m.wn < 1048576 && m.wlist == ite(m.wn > 0, m.wl[0], nil) &&
+//@     (forall k int {m.wl[k]} :: 0 <= k && k < m.wn ==> m.wl[k] != nil && m.wl[k] < brk() && (k + 1 == m.wn ==> wrAt(m, k).next == nil) && wrAt(m, k).Nitro == m && addr(wrAt(m, k).slSts1) != addr(m.store.Stats) &&
+//@         wrAt(m, k).count < 1099511627776 && wrAt(m, k).count > -1099511627776) &&
+//@     (forall k, l int {m.wl[k], m.wl[l]} :: 0 <= k && k < l && l < m.wn ==> m.wl[k] != m.wl[l] && (l == k + 1 ==> wrAt(m, k).next == m.wl[l]))
+//@ pure allGC(m *Nitro, from int) bool = forall k int {m.wl[k]} :: from <= k && k < m.wn ==> wfGC(wrAt(m, k))
+//@ pure glDisjoint(m *Nitro) bool = forall k, l, i, j int {wrAt(m, k).gl[i], wrAt(m, l).gl[j]} :: 0 <= k && k < l && l < m.wn && 0 <= i && i < wrAt(m, k).gln && 0 <= j && j < wrAt(m, l).gln ==> wrAt(m, k).gl[i] != wrAt(m, l).gl[j]
+//@ pure accList(m *Nitro, head ref, tail ref) bool = m.ngn >= 0 && (m.ngn == 0 ==> head == nil && tail == nil) &&
+//@     (m.ngn > 0 ==> head == m.ngl[0] && tail == m.ngl[m.ngn - 1] && cast(*skiplist.Node, tail).Link == nil) &&
+//@     (forall j int {m.ngl[j]} :: 0 <= j && j < m.ngn ==> m.ngl[j] != nil) && (forall j, l int {m.ngl[j], m.ngl[l]} :: 0 <= j && l == j + 1 && l < m.ngn ==> cast(*skiplist.Node, m.ngl[j]).Link == m.ngl[l])
+
+//@ func (*Nitro).NewSnapshot
+//@ props C02 C06 C01
+//@ use sl-globals errs-nonnil
+//@ use concat-def
+//@ chain-ensures
+//@ requires m != nil && m.snapshots != nil && m.store != nil && m.store != m.snapshots && wfWriters(m) && allGC(m, 0) && glDisjoint(m) && m < brk()
+//@ requires m.itemsCount < 4611686018427387904 && m.itemsCount > -4611686018427387904 && m.currSn >= 1
+//@ call (*skiplist.Skiplist).Insert havoc m.snapshots.set, m.snapshots.phys, m.snapshots.n, m.snapshots.level, heap($alive), heap($brk), heap(skiplist.Stats.insertConflicts), heap(skiplist.Stats.readConflicts), heap(skiplist.Stats.nodeAllocs), heap(skiplist.Stats.usedBytes), heap(skiplist.Stats.levelNodesCount)
+//@ ghost-pre m.wi := 0
+//@ ghost-pre m.ngn := 0
+//@ ghost-pre m.wcs[0] := m.itemsCount
+//@ ghost-pre m.woff[0] := 0
+//@ modifies m.wi, m.ngl, m.ngn, m.woff, m.wcs, m.itemsCount, m.currSn, heap(Writer.gchead), heap(Writer.gctail), heap(Writer.count), heap(Writer.$gln), heap(skiplist.Node.Link)
+//@ modifies m.snapshots.set, m.snapshots.phys, m.snapshots.n, m.snapshots.level, heap($alive), heap($brk)
+//@ modifies heap(skiplist.Stats.insertConflicts), heap(skiplist.Stats.readConflicts), heap(skiplist.Stats.softDeletes), heap(skiplist.Stats.nodeAllocs), heap(skiplist.Stats.nodeFrees), heap(skiplist.Stats.usedBytes), heap(skiplist.Stats.levelNodesCount)
+//@ loop 1 ghost m.woff[m.wi + 1] := m.ngn + cast(*Writer, m.wl[m.wi]).gln
+//@ loop 1 ghost m.ngl := concat(m.ngl, m.ngn, cast(*Writer, m.wl[m.wi]).gl)
+//@ loop 1 ghost m.ngn := m.ngn + cast(*Writer, m.wl[m.wi]).gln
+//@ loop 1 ghost cast(*Writer, m.wl[m.wi]).gln := 0
+//@ loop 1 ghost m.wcs[m.wi + 1] := m.itemsCount
+//@ loop 1 ghost m.wi := m.wi + 1
+//@ loop 1 invariant[idx] 0 <= m.wi && m.wi <= m.wn && w == ite(m.wi < m.wn, m.wl[m.wi], nil) && wfWriters(m) && m.wn == old(m.wn) && m.wl == old(m.wl)
+//@ loop 1 invariant[off-chain] m.woff[0] == 0 && m.woff[m.wi] == m.ngn && (forall k int {m.wl[k]} :: 0 <= k && k < m.wi ==> m.woff[k + 1] == m.woff[k] + old(wrAt(m, k).gln) && m.woff[k] >= 0 && m.woff[k + 1] <= m.ngn && old(wrAt(m, k).gln) >= 0)
+//@ loop 1 invariant[off-content] forall k int {m.wl[k]} :: 0 <= k && k < m.wi ==> (forall j int {wrAt(m, k).gl[j]} :: 0 <= j && j < old(wrAt(m, k).gln) ==> m.ngl[m.woff[k] + j] == wrAt(m, k).gl[j])
+//@ loop 1 invariant[done] forall k int {m.wl[k]} :: 0 <= k && k < m.wi ==> wrAt(m, k).gchead == nil && wrAt(m, k).gctail == nil && wrAt(m, k).gln == 0 && wrAt(m, k).count == 0
+//@ loop 1 invariant[todo] allGC(m, m.wi) && (forall k int {m.wl[k]} :: m.wi <= k && k < m.wn ==> wrAt(m, k).gln == old(wrAt(m, k).gln) && wrAt(m, k).count == old(wrAt(m, k).count))
+//@ loop 1 invariant[acc] accList(m, head, tail)
+//@ loop 1 invariant[apart] forall k, i, j int {wrAt(m, k).gl[i], m.ngl[j]} :: m.wi <= k && k < m.wn && 0 <= i && i < wrAt(m, k).gln && 0 <= j && j < m.ngn ==> wrAt(m, k).gl[i] != m.ngl[j]
+//@ loop 1 invariant[counts] m.wcs[0] == old(m.itemsCount) && m.wcs[m.wi] == m.itemsCount && (forall k int {m.wl[k]} :: 0 <= k && k < m.wi ==> m.wcs[k + 1] == m.wcs[k] + old(wrAt(m, k).count)) &&
+//@     m.itemsCount < 4611686018427387904 + m.wi * 1099511627776 && m.itemsCount > -4611686018427387904 - m.wi * 1099511627776
+//@ loop 1 invariant[misc] m.currSn == old(m.currSn) && glDisjoint(m) && (forall k int {m.wl[k]} :: 0 <= k && k < m.wn ==> wrAt(m, k).gl == old(wrAt(m, k).gl))
+//@ loop 1 decreases m.wn - m.wi
+//@ ghost-exit if result0 != nil then result0.sgl := m.ngl
+//@ ghost-exit if result0 != nil then result0.sgn := m.ngn
+//@ ensures[epoch] m.currSn == (old(m.currSn) + 1) % 4294967296 && (result1 == nil <==> result0 != nil) && (result0 == nil <==> old(m.currSn) == 4294967294)
+//@ ensures[record] result0 != nil ==> result0 >= old(brk()) && result0.db == m && result0.sn == old(m.currSn) && result0.refCount == 1 && result0.count == m.itemsCount && result0.gclist == ite(result0.sgn > 0, result0.sgl[0], nil)
+//@ ensures[count-merge] m.itemsCount == m.wcs[m.wn] && m.wcs[0] == old(m.itemsCount) && (forall k int {m.wl[k]} :: 0 <= k && k < m.wn ==> m.wcs[k + 1] == m.wcs[k] + old(wrAt(m, k).count) && wrAt(m, k).count == 0)
+//@ ensures[stitched] result0 != nil ==> result0.sgn == m.woff[m.wn] && m.woff[0] == 0 && (forall k int {m.wl[k]} :: 0 <= k && k < m.wn ==> m.woff[k + 1] == m.woff[k] + old(wrAt(m, k).gln) &&
+//@     (forall j int {wrAt(m, k).gl[j]} :: 0 <= j && j < old(wrAt(m, k).gln) ==> result0.sgl[m.woff[k] + j] == old(wrAt(m, k).gl[j])))
+//@ ensures[chain] result0 != nil ==> (forall j int {result0.sgl[j]} :: 0 <= j && j < result0.sgn ==> result0.sgl[j] != nil && (j + 1 == result0.sgn ==> cast(*skiplist.Node, result0.sgl[j]).Link == nil)) &&
+//@     (forall j, l int {result0.sgl[j], result0.sgl[l]} :: 0 <= j && l == j + 1 && l < result0.sgn ==> cast(*skiplist.Node, result0.sgl[j]).Link == result0.sgl[l])
+//@ ensures[lists-reset] forall k int {m.wl[k]} :: 0 <= k && k < m.wn ==> wrAt(m, k).gchead == nil && wrAt(m, k).gctail == nil && wrAt(m, k).gln == 0
+//@ ensures[writers] wfWriters(m) && allGC(m, 0)
+//@ nopanic
